@@ -208,7 +208,7 @@ impl BitEnc {
             // as many copies of value as possible.
             let mut value_block = 0;
             {
-                let mut v = u32::from(value);
+                let mut v = u32::from(value) & self.mask;
                 for _ in 0..32 / self.width {
                     value_block |= v;
                     v <<= self.width;
